@@ -91,7 +91,10 @@ def run_c07(pid, tier, seed, replay=None):
             pairs = rnd.sample(pairs, 250)
         else:
             pairs = rnd.sample(pairs, 30000)
-        cases = singles + pairs
+        # undamaged files too, up to 9 dimensions: whatever a read returns must survive the battery (the gradient of a table with
+        # more than 7 dimensions has to be refused, not attempted)
+        intact = [{"base": n, "muts": []} for n in (1, 2, 3, 7, 8, 9)]
+        cases = intact + singles + pairs
         cf = os.path.join(wd, "cases.ndjson")
         vlib.write_ndjson(cf, cases)
         exe = vlib.build_driver("fits_driver", "asan")
@@ -103,7 +106,7 @@ def run_c07(pid, tier, seed, replay=None):
         rows = vlib.read_ndjson(log)
         for d in _trace(ck, log, "damaged", rows):
             ev = rows[d["line"] - 1]
-            muts = ev["case"]["muts"]
+            muts = ev["case"]["muts"] or [{"m": "intact"}]
             ck.violation({"class": d["kind"], "mut": [m["m"] for m in muts], "how": ev["how"], "battery": ev.get("battery", "").split(":")[0],
                           "key": muts[0].get("key"), "val": muts[0].get("val"), "hdu": muts[0].get("hdu"),
                           "in_cfitsio_mem_read": "in mem_read" in ev.get("detail", "")},
